@@ -640,6 +640,32 @@ impl<'g> TestList<'g> {
         Ok(test_binary.into_test_suite(RustTestSuiteStatus::Listed { test_cases }))
     }
 
+    /// Verification hook: builds a test list directly from already-processed test suites.
+    #[cfg(feature = "verif-hooks")]
+    pub fn verif_from_suites(
+        suites: impl IntoIterator<Item = RustTestSuite<'g>>,
+        workspace_root: Utf8PathBuf,
+        rust_build_meta: RustBuildMeta<TestListState>,
+    ) -> Self {
+        let rust_suites: BTreeMap<_, _> = suites
+            .into_iter()
+            .map(|suite| (suite.binary_id.clone(), suite))
+            .collect();
+        let test_count = rust_suites
+            .values()
+            .map(|suite| suite.status.test_count())
+            .sum();
+        Self {
+            rust_suites,
+            workspace_root,
+            env: EnvironmentMap::verif_empty(),
+            rust_build_meta,
+            updated_dylib_path: OsString::new(),
+            test_count,
+            skip_counts: OnceLock::new(),
+        }
+    }
+
     /// Verification hook: processes the given listing outputs for one binary exactly as
     /// [`TestList::new`] does after running it (including the binary-level shortcut).
     #[cfg(feature = "verif-hooks")]
